@@ -17,8 +17,16 @@ pub fn gen(a: &Args) -> i32 {
         let mut r = Rng::for_case(a.seed, case);
         let levels = r.range(1, 4);
         let l0max = r.range(1, 3);
-        let vlog = r.chance(1, 3) as u8;
-        writeln!(out, "case {case} {levels} {l0max} {vlog}").unwrap();
+        let c11 = a.extra.get("mode").map(|m| m == "c11").unwrap_or(false);
+        let vlog = if c11 { 1 } else { r.chance(1, 3) as u8 };
+        // C11 mode: separation threshold and value-log file size vary; values sit around the threshold
+        let thr = if c11 { *r.pick(&[0usize, 64]) } else { 0 };
+        let vfile = if c11 { *r.pick(&[256usize, 512, 4096]) } else { 512 };
+        writeln!(out, "case {case} {levels} {l0max} {vlog} {thr} {vfile}").unwrap();
+        if c11 {
+            st.bump(&format!("threshold_{thr}"));
+            st.bump(&format!("vlogfile_{vfile}"));
+        }
         st.bump(&format!("levels_{levels}"));
         let nk = r.range(2, KEYS.len() as u64) as usize;
         let nops = r.range(8, if a.thorough { 90 } else { 45 });
@@ -45,7 +53,20 @@ pub fn gen(a: &Args) -> i32 {
                         vctr += 1;
                         // with the value log on, values are large enough to roll vlog files over
                         let mut val = format!("v{vctr}").into_bytes();
-                        if vlog == 1 {
+                        if c11 {
+                            let t = thr.max(8);
+                            let len = match r.below(6) {
+                                0 => 0,
+                                1 => t - 1,
+                                2 => t,
+                                3 => t + 1,
+                                4 => r.range(2000, 5000) as usize,
+                                _ => r.range(1, 300) as usize,
+                            };
+                            st.bump(match len { 0 => "len_0", l if l + 1 == t => "len_t-1", l if l == t => "len_t", l if l == t + 1 => "len_t+1", l if l >= 2000 => "len_multi_block", _ => "len_other" });
+                            val.resize(len.max(if len == 0 { 0 } else { val.len().min(len) }), b'a' + (vctr % 20) as u8);
+                            val.truncate(len);
+                        } else if vlog == 1 {
                             val.resize(150 + r.below(100) as usize, b'x');
                         }
                         ws.push(format!("{k}={}", hex(&val)));
@@ -88,6 +109,9 @@ pub fn gen(a: &Args) -> i32 {
                 writeln!(out, "compact").unwrap();
                 placements += 1;
                 st.bump("op_compact");
+                if c11 {
+                    writeln!(out, "vcheck").unwrap();
+                }
             } else if x < 96 {
                 writeln!(out, "reopen").unwrap();
                 open.clear();
@@ -107,6 +131,9 @@ pub fn gen(a: &Args) -> i32 {
         for k in 0..nk {
             writeln!(out, "fresh {}", hex(KEYS[k])).unwrap();
         }
+        if c11 {
+            writeln!(out, "vcheck").unwrap();
+        }
         if placements > 0 && overwrote && !open.is_empty() {
             st.bump("nontrivial_cases");
         }
@@ -121,11 +148,11 @@ pub fn gen(a: &Args) -> i32 {
 struct Store {
     dir: tempfile::TempDir,
     tree: Option<Tree>,
-    opts: (u8, usize, bool),
+    opts: (u8, usize, bool, usize, u64),
     readers: HashMap<u64, Transaction>,
 }
 
-fn build(path: &std::path::Path, o: (u8, usize, bool)) -> Tree {
+fn build(path: &std::path::Path, o: (u8, usize, bool, usize, u64)) -> Tree {
     let mut opts = Options::new();
     opts.path = path.to_path_buf();
     opts.level_count = o.0;
@@ -136,8 +163,8 @@ fn build(path: &std::path::Path, o: (u8, usize, bool)) -> Tree {
     opts.max_memtable_size = 1 << 20;
     if o.2 {
         opts.enable_vlog = true;
-        opts.vlog_value_threshold = 0;
-        opts.vlog_max_file_size = 512;
+        opts.vlog_value_threshold = o.3;
+        opts.vlog_max_file_size = o.4;
     }
     TreeBuilder::with_options(opts).build().expect("build")
 }
@@ -160,7 +187,13 @@ pub fn exec(a: &Args) -> i32 {
                         }
                     }
                     let dir = tempfile::tempdir().expect("tempdir");
-                    let o = (w[2].parse::<u8>().unwrap(), w[3].parse::<usize>().unwrap(), w[4] == "1");
+                    let o = (
+                        w[2].parse::<u8>().unwrap(),
+                        w[3].parse::<usize>().unwrap(),
+                        w[4] == "1",
+                        w.get(5).and_then(|x| x.parse::<usize>().ok()).unwrap_or(0),
+                        w.get(6).and_then(|x| x.parse::<u64>().ok()).unwrap_or(512),
+                    );
                     let tree = build(dir.path(), o);
                     st = Some(Store { dir, tree: Some(tree), opts: o, readers: HashMap::new() });
                     "-".into()
@@ -254,6 +287,11 @@ pub fn exec(a: &Args) -> i32 {
                         Err(e) => format!("err:{}", err_name(&e)),
                     }
                 }
+                Some("vcheck") => match vs::vlog_audit(st.as_ref().unwrap().tree.as_ref().unwrap()) {
+                    Ok(bad) if bad.is_empty() => "ok".into(),
+                    Ok(bad) => format!("BAD {}", bad.join(";")),
+                    Err(e) => format!("err:{}", e.replace(' ', "_")),
+                },
                 Some("rotate") => match vs::rotate(st.as_ref().unwrap().tree.as_ref().unwrap()) {
                     Ok(()) => "ok".into(),
                     Err(e) => format!("err:{}", e.replace(' ', "_")),
